@@ -21,7 +21,7 @@ SPEC_FUNCS = {"implies", "iff", "old", "forall", "exists", "isdict", "islist", "
               "isobj", "isnum", "to_real", "is_decimal_str", "str_to_int", "int_to_str", "haskey", "content_eq",
               "istuple", "iscallable", "seq_eq_upto", "strlen", "lower_ascii", "keys_subset", "real",
               "list_eq", "is_exc", "no_new_keys", "trunc", "AP", "RP", "EPT", "INSTANT", "NOW", "RFC3339_OK", "rmax", "rmin",
-              "istrue", "NAIVE"}
+              "istrue", "NAIVE", "unchanged_except", "isemptydict", "isfalse"}
 
 BUILTIN_FUNCS = {
     "len", "isinstance", "int", "str", "float", "bool", "min", "max", "abs", "dict", "list", "tuple", "set",
